@@ -59,6 +59,11 @@ CHECKS = {
             "17 fixed two-operation sets (same-document update/update, update/remove, remove/remove, contended unique values, operations racing flush, extension pairs, readers overlapping writers) under EVERY release order of their backend mutations, and generated sets of 2-4 operations under generated schedules: some order of the mutating ops consistent with per-document real-time order must reproduce every return value and the final documents/extensions; all indexes agree with the final documents; reads return whole documents some call wrote; the storage as it was when a concurrent flush returned reopens to a prefix state.",
             "The harness owns the schedule only at backend-call granularity on a single-threaded executor; interleavings inside one synchronous section on different cores are not explored (no multi-threaded stress sub-check is registered). Trusts the sequential model, ParkStore and quiescence detection (4 stable scheduler rounds).",
             "§5 C05"),
+    "C06": ("vf-db", "exploration",
+            "complete lifecycle x API matrix over a logging object store, cancellation exploration (every mutating future dropped after every poll count), systematic and generated schedule exploration of lifecycle transitions racing in-flight / queued operations",
+            "8 transitions (collection / database read-only, Collection::close, close_collection, delete_collection, AndaDB::close, poison by a cancelled add, poison by a failed flush) x 11 mutating calls on a retained Arc<Collection>: no write under the collection after the transition, every call an error, retired handles cannot be revived, nothing remains under a deleted prefix, a reopen yields the logical state of the transition point; 10 mutating APIs dropped after every poll count: Poisoned, or Active with no partial effect, and a reopen yields the pre- or post-state with consistent indexes; close / delete transitions racing an in-flight operation and read-only flags racing operations queued behind a flush under EVERY release order (generated for 2-3 operations).",
+            "auto_flush timing and cancellation of index create/remove inside the open callback are not covered; Collection::close on a read-only handle may flush (documented) and is judged on content. Schedules are owned at backend-call granularity on one thread.",
+            "§5 C06"),
     "C13": ("vf-schema", "exploration",
             "type-directed property-based testing (proptest: FieldType grammar x choice-sequence values valid by construction, single-mutation invalid values, exhaustive complexity-budget boundary grid, fixed derive structs, schema upgrade chains) against the harness's own fold canon(type, value) and model of the documented validation rules",
             "Documents generated from FieldType trees (depth <= 4, every constructor, boundary numerics, every documented read-back shape) are written through set_field, Document::try_from, FieldEntry::coerce and set_field_as, stored as Collection stores them and read back: every field must equal the harness's fold into the declared variant and a second round trip is a fix-point; single mutations (12 kinds) and the complete budget grid at limit-1/limit/limit+1 must be refused by every entry point that can express them; any accepted value, valid or not, must stay readable; 8 derive structs covering the inference table reproduce T bit for bit; 2-5-version upgrade chains keep surviving fields, drop removed ones, never resurrect re-added top-level names, and every documented-forbidden upgrade is refused.",
